@@ -689,7 +689,7 @@ func init() {
 			if tier == "thorough" {
 				return 20000
 			}
-			return 2000
+			return 3000
 		},
 		ChunkSize:   50,
 		Rule:        "each case is one cell of method (12 request methods) x client state (first connect in progress then succeeding / failing, down, online, closed) x fault placement (request write fails at byte 0 / middle / last byte, zero-progress expiry, response lost with the connection, SUBACK with a wrong number of codes, SUBACK failing a filter, Close during the write, Close while awaiting the response) x quit (nil, closed before, closed during the write, closed while awaiting the response) x argument validity x Save failure x capacity exhausted, drawn by PRNG, placed with connection gates; the request's bytes are attributable by a unique topic marker (Ping/Disconnect by their fixed packets). Oracle: the error is in the documented set of its method; ErrClosed/ErrDown/ErrMax/ErrCanceled/IsDeny only with zero bytes of the request on every connection; ErrBreak/ErrAbandoned only with the packet completely written; quit alone gives only ErrCanceled/ErrAbandoned; a persisted publish that returned an error left no record, no bytes and no exchange; the class expected by construction of the cell is present. Every 10th case runs the classifier laws on 2,000 generated error trees (fmt.Errorf %w chains, double %w, errors.Join nests, custom Is / Unwrap / Unwrap []error over all exported sentinels and the deny errors the library produced): IsDeny/IsEnd agree with errors.Is, Backoff returns nil exactly for nil/IsDeny/IsEnd/SubscribeError, ReadBackoff nil exactly for ErrClosed, and classification does not modify the error. Distinct by (cell, resulting class).",
